@@ -14,6 +14,8 @@
 //   on <X> rmall <a>                    removeAll(PopData of ALT block a)
 //   on <X> cleanup | clear | mp         mp = dump of all views (connected / in flight / relations)
 //   on <X> bits                         tree verdict bits used by the pool model (see props/_mempool.py)
+//   on <X> relv [<a>]                   relations-model view (props/_relcorr.py): signal trace of the previous line,
+//                                       cleanUp predicates over the registry, all seven containers and the relations
 // Oracle failures are printed as "!<id> <text>".
 #include <algorithm>
 #include <array>
@@ -809,6 +811,7 @@ struct MpSession : public vw::Session {
     if (c == "bits") return bits(I, t.size() > 1 ? t[1] : std::string());
     if (c == "mpv") return dumpViews(I);
     if (c == "info") return info(t[1]);
+    if (c == "relv") return relView(I, t.size() > 1 ? t[1] : std::string());
     return "";
   }
 
@@ -865,12 +868,84 @@ struct MpSession : public vw::Session {
            " present=" + join(present);
   }
 
+  // ------------------------------------------------------------ relations-model view (props/_relcorr.py)
+  // Every emission of the three mempool signals during the line just executed, with what the pool looked like at
+  // that moment: "<id>:<in flight><connected><carried block in the mempool tree>". submit() emits after the
+  // in-flight insert (FAILED_STATEFUL), after makePayloadConnected (VALID) and when a relation is created, so the
+  // verdict each resubmission of a connect pass actually got can be read off the trace.
+  std::map<const MemPool*, std::vector<std::string>> reltrace;
+  template <typename T>
+  void relNote(MemPool* mp, const T& pl, const VbkBlock& carried) {
+    auto id = pl.getId();
+    const typename MemPool::payload_map<T>& fm = mp->getInFlightMap<T>();
+    bool f = fm.count(id) != 0, c = mp->getMap<T>().count(id) != 0;
+    bool p = mp->mempool_tree_.vbk().getBlockIndex(carried.getHash()) != nullptr;
+    reltrace[mp].push_back(idname(*reg, id) + ":" + (f ? "1" : "0") + (c ? "1" : "0") + (p ? "1" : "0"));
+  }
+  void relHook(Instance& I) {
+    MemPool* mp = I.mempool.get();
+    if (mp == nullptr || mp->on_atv_accepted.size() != 0) return;
+    mp->on_atv_accepted.connect([this, mp](const ATV& a) { relNote<ATV>(mp, a, a.blockOfProof); });
+    mp->on_vtb_accepted.connect([this, mp](const VTB& w) { relNote<VTB>(mp, w, w.containingBlock); });
+    mp->on_vbkblock_accepted.connect([this, mp](const VbkBlock& b) { relNote<VbkBlock>(mp, b, b); });
+  }
+  std::string relView(Instance& I, const std::string& alt) {
+    auto& mp = *I.mempool;
+    std::string pd;  // "relv <a>": the PopData removeAll(<a>) is called with
+    {
+      auto it = reg->alt.find(alt);
+      if (it != reg->alt.end() && it->second.hasPd) {
+        std::vector<std::string> c, w, a;
+        for (auto& x : it->second.pd.context) c.push_back(idname(*reg, x.getId()));
+        for (auto& x : it->second.pd.vtbs) w.push_back(idname(*reg, x.getId()));
+        for (auto& x : it->second.pd.atvs) a.push_back(idname(*reg, x.getId()));
+        pd = " pdc=" + join(c) + " pdw=" + join(w) + " pda=" + join(a);
+      }
+    }
+    auto& stable = mp.mempool_tree_.vbk().getStableTree();
+    auto* tip = stable.getBestChain().tip();
+    std::vector<std::string> old, stab, badb, badw, bada;
+    for (auto& kv : reg->vbk) {
+      // the expressions of MemPool::cleanUp
+      const bool tooOld = (tip->getHeight() - stable.getParams().getOldBlocksWindow()) > kv.second.getHeight();
+      if (tooOld) old.push_back(kv.first);
+      if (stable.getBlockIndex(kv.second.getHash()) != nullptr) stab.push_back(kv.first);
+      ValidationState st;
+      if (!mp.mempool_tree_.checkContextually(kv.second, st)) badb.push_back(kv.first);
+    }
+    for (auto& kv : reg->vtb) { ValidationState st; if (!mp.mempool_tree_.checkContextually(kv.second, st)) badw.push_back(kv.first); }
+    for (auto& kv : reg->atv) { ValidationState st; if (!mp.mempool_tree_.checkContextually(kv.second, st)) bada.push_back(kv.first); }
+    std::vector<std::string> cv, cw, ca;
+    for (auto& kv : mp.vbkblocks_) cv.push_back(idname(*reg, kv.first));
+    for (auto& kv : mp.stored_vtbs_) cw.push_back(idname(*reg, kv.first));
+    for (auto& kv : mp.stored_atvs_) ca.push_back(idname(*reg, kv.first));
+    std::vector<std::string> rels;
+    for (auto& kv : mp.relations_) {
+      std::vector<std::string> a, w;
+      for (auto& x : kv.second->atvs) a.push_back(idname(*reg, x->getId()));
+      for (auto& x : kv.second->vtbs) w.push_back(idname(*reg, x->getId()));
+      std::string sa = join(a), sw = join(w);
+      std::replace(sa.begin(), sa.end(), ',', '.');
+      std::replace(sw.begin(), sw.end(), ',', '.');
+      rels.push_back(idname(*reg, kv.first) + ":" + sa + "/" + sw);
+    }
+    std::string r = join(rels);
+    std::replace(r.begin(), r.end(), ',', ';');
+    return "tr=" + join(reltrace[&mp], false) + " old=" + join(old) + " stab=" + join(stab) + " badb=" + join(badb) +
+           " badw=" + join(badw) + " bada=" + join(bada) + " cv=" + join(cv) + " cw=" + join(cw) + " ca=" + join(ca) +
+           " fv=" + join(inflightIds<VbkBlock>(I)) + " fw=" + join(inflightIds<VTB>(I)) + " fa=" + join(inflightIds<ATV>(I)) +
+           " rel=" + r + pd;
+  }
+
   // ------------------------------------------------------------ top level
   std::string run(const std::vector<std::string>& t) {
     fails.clear();
     notes.clear();
     afterPass = t.size() > 2 && t[0] == "on" && (t[2] == "gen" || t[2] == "rmall");
     for (auto& s : submitted) s.clear();
+    if (!(t.size() > 2 && t[0] == "on" && t[2] == "relv")) reltrace.clear();
+    if (reg)
+      for (auto& kv : inst) relHook(*kv.second);
     std::string r;
     if (t[0] == "atvs" && reg) {
       r = atvs(t);
